@@ -373,10 +373,11 @@ class MinHash(RustObject):
             )
 
         size = ffi.new("uintptr_t *")
+        seq_bytes = to_bytes(sequence)
         hashes_ptr = self._methodcall(
             lib.kmerminhash_seq_to_hashes,
-            to_bytes(sequence),
-            len(sequence),
+            seq_bytes,
+            len(seq_bytes),
             force,
             bad_kmers_as_zeroes,
             is_protein,
